@@ -515,6 +515,9 @@ pub enum MOp {
     /// a handle with unflushed data whose stream is removed; a new small stream is created and filled
     /// (it may reuse the directory slot); then the stale handle is flushed, written again and dropped
     RemoveHeld(usize),
+    /// one handle: read a byte (the window now holds the stream's start), shrink the stream to a length
+    /// inside that window but not below the position, read on to the end, then query and move the position
+    ShrinkInWindow(usize),
 }
 
 /// Mutation alphabet for a file with `ns` streams and `nd` storages (by walk index).
@@ -531,6 +534,7 @@ pub fn mutation_alphabet(ns: usize, nd: usize) -> Vec<MOp> {
             v.push(MOp::SetLen(i, u64::MAX));
             v.push(MOp::TwoHandles(i));
             v.push(MOp::RemoveHeld(i));
+            v.push(MOp::ShrinkInWindow(i));
         }
         v.push(MOp::RemoveStream(i));
         v.push(MOp::SeekAround(i));
@@ -662,6 +666,24 @@ fn do_mop(l: &mut Live, op: &MOp, streams: &[std::path::PathBuf], storages: &[st
                     let mut sink = Vec::new();
                     let _ = a.seek(SeekFrom::Start(0));
                     let _ = a.read_to_end(&mut sink);
+                }
+            }
+        }
+        MOp::ShrinkInWindow(i) => {
+            if let Some(p) = streams.get(*i) {
+                if let Ok(h) = l.comp.open_stream(p) {
+                    let mut h = ops::NoDropOnPanic::new(h);
+                    let mut one = [0u8; 1];
+                    let _ = h.read(&mut one);
+                    let n = if h.len() > 20 && h.len() < (1 << 20) { h.len() / 2 } else { 5 };
+                    let _ = h.set_len(n);
+                    let mut sink = Vec::new();
+                    let _ = (&mut *h).take(1 << 20).read_to_end(&mut sink);
+                    let _ = h.stream_position();
+                    let _ = h.seek(SeekFrom::Current(0));
+                    let _ = h.seek(SeekFrom::Current(-1));
+                    let _ = h.write_all(&data(3));
+                    let _ = h.flush();
                 }
             }
         }
